@@ -2,6 +2,7 @@ package rules
 
 import (
 	"fmt"
+	"go/types"
 	"strings"
 
 	"golang.org/x/tools/go/ssa"
@@ -273,4 +274,66 @@ func c20R9(c *Ctx) {
 		}
 	}
 	c.R.Ob(rule, "recving-stores", n >= 2, "-", "", fmt.Sprintf("%d", n))
+}
+
+// c03R7: the watermark comparisons are signed.
+func c03R7(c *Ctx) {
+	rule := c.R.Rule("R7", "signed watermark comparisons: every comparison in signBytesHRS involving LastHeight / LastRound / LastStep is made on signed integers (after a conversion to an unsigned type a negative height or round compares as a huge value and is not seen as a regression); the symbolic rendering used by R2 is blind to conversions, this obligation is not", 6)
+	f := c.Anchor(rule, pvType+".signBytesHRS")
+	if f == nil {
+		return
+	}
+	n := 0
+	for _, b := range f.F.Blocks {
+		for _, ins := range b.Instrs {
+			bo, ok := ins.(*ssa.BinOp)
+			if !ok || !f.Live(ins) {
+				continue
+			}
+			e := exprOf(bo)
+			if !(strings.Contains(e, "a0.LastHeight") || strings.Contains(e, "a0.LastRound") || strings.Contains(e, "a0.LastStep")) {
+				continue
+			}
+			switch bo.Op.String() {
+			case "<", "<=", ">", ">=", "==", "!=":
+			default:
+				continue
+			}
+			n++
+			unsigned := false
+			for _, op := range []ssa.Value{bo.X, bo.Y} {
+				if bt, isB := op.Type().Underlying().(*types.Basic); isB && bt.Info()&types.IsUnsigned != 0 {
+					unsigned = true
+				}
+			}
+			c.R.Ob(rule, "signed-compare:"+shorten(e), !unsigned, c.Pos(ins), fname(f), "comparison on an unsigned type")
+		}
+	}
+	c.R.Ob(rule, "comparisons", n >= 6, c.P.Pos(f.F.Pos()), fname(f), fmt.Sprintf("%d", n))
+}
+
+// c02R9: a received block reaches validation as it was decoded.
+func c02R9(c *Ctx) {
+	rule := c.R.Rule("R9", "validated as received: between decoding the proposal block and its validation nothing rewrites it — addProposalBlockPart does not call Block.Hash / FillHeader / MakePartSet on the decoded block (Hash() fills absent header commitments in place: called first, the checks of ValidateBasic compare the block with itself); FillHeader fills a commitment only when it is nil", 2)
+	if f := c.Anchor(rule, csT+".addProposalBlockPart"); f != nil {
+		bad := ""
+		for _, ci := range f.CallsTo(cfgx.Named("gemmill/types.(*Block).Hash", "gemmill/types.(*Block).FillHeader", "gemmill/types.(*Block).MakePartSet", "gemmill/types.(*Block).HashesTo")) {
+			if strings.Contains(callArg(ci, 0), "ProposalBlock") || strings.Contains(callArg(ci, 0), "ReadBinary(") {
+				bad = cfgxCallee(ci) + " at " + c.Pos(ci)
+			}
+		}
+		c.R.Ob(rule, "addProposalBlockPart:no-hash-before-validation", bad == "", c.P.Pos(f.F.Pos()), fname(f), bad)
+	}
+	if f := c.Anchor(rule, "gemmill/types.(*Block).FillHeader"); f != nil {
+		n := 0
+		for _, st := range f.Stores(func(a string) bool { return strings.HasSuffix(a, "Hash") }) {
+			n++
+			fld := exprOf(st.Addr)
+			ok := f.HasGuard(st, eqs("("+fld+" == nil)"))
+			c.R.Ob(rule, "FillHeader:"+fld[strings.LastIndex(fld, ".")+1:]+"-filled-only-when-nil", ok, c.Pos(st), fname(f), "a present (even empty) commitment of a received header must be left for validation to reject; "+shorten(guardsText(f, st)))
+		}
+		if n == 0 {
+			c.R.Undecided(rule, "FillHeader:stores", c.P.Pos(f.F.Pos()), fname(f), "no commitment store")
+		}
+	}
 }
